@@ -42,6 +42,13 @@ def step (d : St) (line : String) : St × String :=
     let cr := createQueueManager cap
     let mp := mappingQueueManager (countQueueMemSize cap * queueCount) cap cap
     (d, s!"csend={showQ cr.send} crecv={showQ cr.recv} msend={showQ mp.send} mrecv={showQ mp.recv}")
+  | ["qmgr", t, c] =>
+    -- the same geometry through the real creation / mapping entry points
+    let cap := Drv.nat! c
+    if (t ≠ "file" ∧ t ≠ "memfd") ∨ cap > 131072 then (d, "bad-op") else
+    let cr := createQueueManager cap
+    let mp := mappingQueueManager (countQueueMemSize cap * queueCount) cap cap
+    (d, s!"csend={showQ cr.send} crecv={showQ cr.recv} msend={showQ mp.send} mrecv={showQ mp.recv}")
   | _ => (d, "bad-op")
 
 end Drv.C03
